@@ -30,7 +30,7 @@ IncForms == << <<Id("x"), Op("++")>>, <<Op("++"), Id("x")>>, <<Id("x"), Op("--")
 Triples == << <<5, 4, 3>>, <<2, 1, 3>>, <<6, 5, 4>>, <<9, 4, 8>>, <<10, 2, 4>>, <<3, 7, 2>> >>     \* operand index triples for the flat families
 
 \* initial environments: x varies by family
-Env0(xk) == [n \in {"x", "y", "z", "w", "e", "v", "bad", "cyc"} |->
+Env0(xk) == [n \in {"x", "y", "z", "w", "e", "v", "bad", "cyc", "oc", "hx", "ng"} |->
                CASE n = "x" -> (CASE xk = 1 -> [k |-> "val", w |-> FromSmall(5)] [] xk = 2 -> [k |-> "val", w |-> MinInt] [] xk = 3 -> [k |-> "unset"] [] xk = 4 -> [k |-> "val", w |-> MinusOne])
                  [] n = "y" -> [k |-> "unset"]
                  [] n = "z" -> [k |-> "toks", toks |-> <<Id("x"), Op("+"), N(10, <<1>>)>>]
@@ -38,7 +38,11 @@ Env0(xk) == [n \in {"x", "y", "z", "w", "e", "v", "bad", "cyc"} |->
                  [] n = "e" -> [k |-> "toks", toks |-> <<>>]
                  [] n = "v" -> [k |-> "toks", toks |-> <<Id("y")>>]
                  [] n = "bad" -> [k |-> "toks", toks |-> <<N(10, <<1>>), Op("+")>>]
-                 [] n = "cyc" -> [k |-> "toks", toks |-> <<Id("cyc"), Op("+"), N(10, <<1>>)>>]]
+                 [] n = "cyc" -> [k |-> "toks", toks |-> <<Id("cyc"), Op("+"), N(10, <<1>>)>>]
+                 \* contents that are numerals in another base: a variable's text is read by the same reader as the expression (010 is 8)
+                 [] n = "oc" -> [k |-> "toks", toks |-> <<N(8, <<1, 0>>)>>]
+                 [] n = "hx" -> [k |-> "toks", toks |-> <<N(16, <<1, 15>>)>>]
+                 [] n = "ng" -> [k |-> "toks", toks |-> <<Op("-"), N(8, <<1, 7>>)>>]]
 
 Pair(t, xk) == [toks |-> t, xk |-> xk]
 Md(a, b) == a % b
@@ -73,9 +77,9 @@ Exprs(f) ==
                \cup {Pair(Opnds[Small[a]] \o <<Op("?"), Id("x"), Op("="), N(10, <<1>>), Op(":"), Id("y"), Op("="), N(10, <<2>>)>>, 1) : a \in 1..4}
                \cup {Pair(Opnds[Small[a]] \o <<Op(o1)>> \o Opnds[Small[b]] \o <<Op("?")>> \o Opnds[Small[c]] \o <<Op(o2)>> \o Opnds[Small[d]] \o <<Op(":"), N(10, <<9>>), Op(o1), N(10, <<2>>)>>, 1) :
                            a \in {1, 2}, b \in {2, 3}, c \in {3, 4}, d \in {1, 4}, o1 \in {"||", "+", "==", ","}, o2 \in {",", "=", "|", "<"}}
-    [] f = "rec" -> {Pair(<<Id(n)>> \o <<Op(o)>> \o Opnds[Small[a]], xk) : n \in {"z", "w", "e", "v", "bad", "y"}, o \in {"+", "*", "&&", "||", ","}, a \in 1..Len(Small), xk \in {1, 3}}
+    [] f = "rec" -> {Pair(<<Id(n)>> \o <<Op(o)>> \o Opnds[Small[a]], xk) : n \in {"z", "w", "e", "v", "bad", "y", "oc", "hx", "ng"}, o \in {"+", "*", "&&", "||", ","}, a \in 1..Len(Small), xk \in {1, 3}}
                \cup {Pair(<<Id(n), Op(o)>> \o Opnds[Small[a]], 1) : n \in {"z", "w", "e", "v"}, o \in {"=", "+=", "*="}, a \in 1..6}
-               \cup {Pair(<<Op(o), Id(n)>>, 1) : n \in {"z", "w", "e", "v", "bad", "cyc"}, o \in {"++", "--", "-", "!"}}
+               \cup {Pair(<<Op(o), Id(n)>>, 1) : n \in {"z", "w", "e", "v", "bad", "cyc", "oc", "hx", "ng"}, o \in {"++", "--", "-", "!"}}
                \cup {Pair(<<Id("cyc")>>, 1), Pair(<<N(10, <<0>>), Op("&&"), Id("cyc")>>, 1), Pair(<<N(10, <<1>>), Op("||"), Id("cyc")>>, 1), Pair(<<Id("x"), Op("="), Id("cyc")>>, 1)}
     [] f = "err" -> {Pair(t, 1) : t \in { <<N(10, <<1>>), Op("+")>>, <<Op("+")>>, <<LP, N(10, <<1>>)>>, <<N(10, <<1>>), RP>>, <<N(10, <<1>>), N(10, <<2>>)>>, <<Id("x"), Id("y")>>,
                                          <<N(10, <<1>>), Op("?"), N(10, <<2>>)>>, <<N(10, <<1>>), Op(":"), N(10, <<2>>)>>, <<Op("++"), N(10, <<1>>)>>, <<N(10, <<1>>), Op("++")>>,
